@@ -149,6 +149,9 @@ func (r *Report) Finish(verifDir string, ctx *Ctx, only string) int {
 		}
 		if o.OK {
 			nok++
+			if os.Getenv("SGVERBOSE") != "" {
+				fmt.Printf("  ok %s %s @%s\n", o.Rule, o.Construct, o.Pos)
+			}
 			continue
 		}
 		if k, ok := kidx[o.Rule+"|"+o.Construct]; ok {
